@@ -799,7 +799,7 @@ Proof.
   pose proof (scan_init_never_panics (2 * length input + 10) (4 * (2 * length input + 10) + 20) input) as HS.
   change (buf_ops cap) with B.
   destruct (scan_all B _ _ _ _) as [toks se]. cbn [snd] in HS.
-  pose proof (parser_run_wellformed toks false se (4 * (2 * length input + 10) + 20)) as [_ HE].
+  pose proof (parser_run_wellformed toks false se (4 * (4 * (2 * length input + 10) + 20) + 40)) as [_ HE].
   unfold init_parser in HE. intros EP. rewrite EP in HE. cbn [end_ok] in HE. exact (HS n HE).
 Qed.
 
